@@ -216,6 +216,22 @@ func containsTerm(a, b *Term) *Term {
 		}
 		ds = append(ds, mk("str.contains", SBool, x, b))
 	}
+	// b is exactly what was appended last (a suffix made of whole pieces): an equation between two
+	// concatenations, which the string solvers decide far more readily than containment
+	for i := 1; i < len(a.Args) && i <= 4; i++ {
+		ds = append(ds, Eq(Concat(a.Args[i:]...), b))
+	}
+	// ... and piece by piece when both are made of the same number of pieces (no string reasoning at
+	// all: be16(len k) == be16(len w) follows from k == w by congruence and arithmetic)
+	if b.Op == "str.++" {
+		for i := 0; i+len(b.Args) <= len(a.Args); i++ {
+			var eqs []*Term
+			for j, y := range b.Args {
+				eqs = append(eqs, Eq(a.Args[i+j], y))
+			}
+			ds = append(ds, And(eqs...))
+		}
+	}
 	ds = append(ds, whole)
 	return Or(ds...)
 }
@@ -427,7 +443,22 @@ func init() {
 				if !okk {
 					fail("spec: visited(x): unsupported key")
 				}
-				return Scalar{SetHas(vis.T, idx)}
+				// membership in a set built by adding keys one by one: "is one of the added keys, or
+				// was in the set before" - for string keys compared as strings (the index is injective),
+				// which hands the solver the case split it does not find through the index function
+				set := vis.T
+				var ds []*Term
+				for set.Op == "store" && len(set.Args) == 3 && set.Args[2].IsTrue() {
+					k := set.Args[1]
+					if k.Op == "uf" && k.Name == "skey" && idx.Op == "uf" && idx.Name == "skey" {
+						ds = append(ds, Eq(k.Args[0], idx.Args[0]))
+					} else {
+						ds = append(ds, Eq(k, idx))
+					}
+					set = set.Args[0]
+				}
+				ds = append(ds, SetHas(set, idx))
+				return Scalar{Or(ds...)}
 			}
 			iv, ok := av.(Iface)
 			if !ok || !ok2 {
